@@ -3,9 +3,12 @@ import itertools
 import lib
 
 ID = 'C05'
-GEN_FILES = ['K_compress', 'K_p8png', 'K_p8png_codec']
+GEN_FILES = ['K_compress', 'K_p8png', 'K_p8png_codec',
+             # source pins of the hand-modelled modules (gen/kernels_pins.py)
+             'T_pins_compress', 'T_pins_p8png']
 COQ_PROPERTY = 'theories/Properties/C05.vo'
-COQ_EXTRA = ['theories/Generated/K_compress_selftest.vo', 'theories/Generated/K_p8png_codec_selftest.vo']
+COQ_EXTRA = ['theories/Generated/K_compress_selftest.vo', 'theories/Generated/K_p8png_codec_selftest.vo',
+             'theories/Proofs/CompressPins.vo', 'theories/Proofs/P8PngPins.vo']
 MODEL = ('ExC05', 'c05_main.ml')
 MONITOR = ('MonC05', 'c05_mon_main.ml')
 CASE_TIMEOUT = 600
